@@ -319,6 +319,27 @@ F6 (open at HEAD 2cbc26b, GENUINE; fix in checks/c18/suggested-fix-bitarray-or.p
     rejection of INCONSISTENT oversized vote arrays (bits=10001 elems=0): those are empty arrays by ad4f98a.
   Effect on earlier mutants: M49 (setIndex bound) and similar contained runtime errors are now caught too.
 
-12 of 14 caught by the quick tier (with the new runtime-error oracle M49 is expected to be caught as well: re-run mutants.sh) (exit 1, VIOLATION lines for new signatures); the two that are not
+c18-seeded-g-heightvoteset-catchup-budget-never-consumed | consensus/types: (meta) | YES | 1: Vote vote.vote.round "3-distinct-untracked-rounds" -> retained-state-unbounded ("after 3 messages from
+  (independently seeded, /verif/seeded/C18g: HeightVoteSet.AddVote never records the catch-up round it    |  ONE peer the node tracks 3 more rounds; the budget is 2"), node-state=any, peer=any; all lengths 3..6
+   grants: dead store)                                                                             |  fail (1 584 sequences); stable over two runs.
+
+Why C18g was MISSED: (a) no case delivered more than two stored messages from one peer (single messages,
+  pairs of a claim + a message); (b) the only oracle on memory was the per-delivery allocation limit - one
+  RoundVoteSet is a few hundred bytes; nothing looked at what the node KEEPS.
+Built (retained.go + accessors VerifC18Retained in harness/consensus, consensus/types, types): sequences of
+  3..6 messages from ONE peer, and after the sequence (before any other peer speaks) the growth of
+  len(roundVoteSets), len(peerCatchupRounds[peer]) and the sum of len(peerMaj23s)+len(votesByBlock) over all
+  vote sets is compared with the budget of the message class (see retained_state_budgets in the evidence):
+    votes for untracked rounds of the current height, any signature     <= 2 catch-up rounds, <= 2 more rounds
+    VoteSetMaj23 for untracked rounds                                   0
+    VoteSetMaj23 for tracked rounds, changing block ids                 1 claim + 1 tally per (round,type) per peer
+    Proposal / BlockPart for unknown rounds                             0
+    HasVote / NewRoundStep jumps                                        0 on the node side
+  Counts (quick): 1 400 sequences (22 units), 1 144 made the node keep something, 5 worker-seconds.
+  The unchanged tree (2f0de4a) keeps every budget: no unbounded per-peer store found in these classes
+  (the refused third vote is visible as "no further round tracked"; tryAddVote only logs it - the peer is
+  NOT dropped for ErrGotVoteFromUnwantedRound: `TODO - punish peer` in handleMsg - an observation).
+
+13 of 15 caught by the quick tier (with the new runtime-error oracle M49 is expected to be caught as well: re-run mutants.sh) (exit 1, VIOLATION lines for new signatures); the two that are not
 caught do not break the property as stated (contained panic = "at most the sending peer is dropped").
 */
